@@ -25,6 +25,13 @@
 (*                         without settling its waiter                          *)
 (*  "stop_timeout_ok"      stop() reports success after its timeout although    *)
 (*                         accepted tasks have not finished                     *)
+(*  "keepalive_precedence" an idle worker leaves only when its keep-alive time  *)
+(*                         has passed, also when the pool is being stopped      *)
+(*                         (`expired && (running > min || recycle)` instead of  *)
+(*                         `expired && running > min || recycle`): stop() waits *)
+(*                         out its limit although all work is done (seeded/C11) *)
+(* KeepAlive = TRUE models a positive keep-alive time: whether an idle worker's *)
+(* time has passed is then chosen freely at every look.                         *)
 EXTENDS Naturals, Integers, Sequences, FiniteSets, TLC, Json
 
 CONSTANTS NT,          \* tasks 1..NT
@@ -33,6 +40,7 @@ CONSTANTS NT,          \* tasks 1..NT
           MaxSusp,     \* suspends per task
           MaxOps,      \* bound on API-level operations (history length)
           Waiters,     \* subset of tasks that have a waiter thread
+          KeepAlive,   \* BOOLEAN: the pool has a positive keep-alive time
           Deviations
 
 T == 1..NT
@@ -52,7 +60,9 @@ VARIABLES pstate,      \* "Running" | "Stopping" | "Stopped"
           ctr,         \* the pool's running counter
           spc,         \* scheduling thread: "idle" | "loop" | "in" | "notify"
           cur,         \* worker being resumed, 0
-          stopping,    \* "no" | "begin" | "passes" | "done_ok" | "done_err"   (stop() on the scheduling thread)
+          stopping,    \* "no" | "begin" | "passes" | "quietpass" | "quietdone" | "done_ok" | "done_err"   (stop() on the
+                       \* scheduling thread; "quietpass": a pass of do_stop that began with all work done or cancelled,
+                       \* "quietdone": such a pass has run to its end)
           waits, pending,   \* registered waiters / their condition flag
           wpc,         \* [T -> waiter pc: "off" | "W1" | "W2" | "W3" | "W4" | "ok" | "err" | "timeout"]
           notified,    \* [T -> BOOLEAN] R2 ran for the task
@@ -77,6 +87,13 @@ NoLog == UNCHANGED <<hist, nops>>
 BodyLog(step) == hist' = Append(hist, [a |-> "body", t |-> wtask[cur], step |-> step]) /\ UNCHANGED nops
 
 Alive == {w \in W : wst[w] \in {"ready", "current", "parked"}}
+StopActive == {"begin", "passes", "quietpass", "quietdone"}
+AllWorkDone == /\ \A t \in accepted : tst[t] \in {"done", "skipped", "orphaned"}
+               /\ \A w \in W : wst[w] # "parked"
+Expiry == IF KeepAlive THEN BOOLEAN ELSE {TRUE}
+\* the worker loop's exit test when it found no task
+IdleExit(expired) == IF Dev("keepalive_precedence") THEN expired /\ (ctr > Min \/ pstate # "Running")
+                     ELSE (expired /\ ctr > Min) \/ pstate # "Running"
 FreeW == {w \in W : wst[w] = "none"}
 
 \* try_grow: one more worker if there is queued work and room
@@ -117,7 +134,7 @@ StopBegin ==
 
 \* do_stop leaves its loop: all workers gone, or the timeout (allowed whenever workers remain)
 StopEnd(timedout) ==
-  /\ Go /\ spc = "idle" /\ stopping = "passes"
+  /\ Go /\ spc = "idle" /\ stopping \in {"passes", "quietdone"}
   /\ IF timedout THEN ctr > 0 ELSE ctr = 0
   /\ LET ok == ~timedout \/ Dev("stop_timeout_ok")
          unfinished == {t \in accepted : tst[t] \in {"queued", "running"}}
@@ -128,16 +145,19 @@ StopEnd(timedout) ==
                       /\ pending' = [t \in T |-> IF t \in waits THEN FALSE ELSE pending[t]]
                       /\ waits' = {}
                  ELSE UNCHANGED <<tres, pending, waits>>
-        /\ viol' = IF ok /\ unfinished # {} THEN "stop_lost_task" ELSE viol
+        \* C11: a whole pass of a stopping pool whose work was all done or cancelled leaves no worker behind,
+        \* so a stop that still runs into its limit afterwards is not prompt
+        /\ viol' = IF ok /\ unfinished # {} THEN "stop_lost_task"
+                   ELSE IF timedout /\ stopping = "quietdone" THEN "stop_slow" ELSE viol
   /\ NoLog
   /\ UNCHANGED <<tq, tst, tw, nsusp, cancelTasks, cancelCo, runningTasks, wst, wtask, rq, ctr, spc, cur, wpc, notified, accepted>>
 
 ------------------------------------------------------------------------------
 (* scheduling thread *)
 PassBegin ==
-  /\ (IF stopping \in {"begin", "passes"} THEN Go ELSE Api) /\ spc = "idle" /\ pstate # "Stopped"
-  /\ (IF stopping \in {"begin", "passes"} THEN NoLog ELSE Log([a |-> "pass"]))
-  /\ stopping' = IF stopping = "begin" THEN "passes" ELSE stopping
+  /\ (IF stopping \in StopActive THEN Go ELSE Api) /\ spc = "idle" /\ pstate # "Stopped"
+  /\ (IF stopping \in StopActive THEN NoLog ELSE Log([a |-> "pass"]))
+  /\ stopping' = IF stopping \in {"begin", "passes"} THEN (IF AllWorkDone THEN "quietpass" ELSE "passes") ELSE stopping
   /\ LET g == Grow(tq, ctr, wst, rq) IN ctr' = g[1] /\ wst' = g[2] /\ rq' = g[3]
   /\ spc' = "loop"
   /\ UNCHANGED <<pstate, tq, tst, tw, nsusp, tres, cancelTasks, cancelCo, runningTasks, wtask, cur, waits,
@@ -145,6 +165,7 @@ PassBegin ==
 
 PickWorker ==
   /\ Go /\ spc = "loop" /\ NoLog
+  /\ stopping' = IF rq = <<>> /\ stopping = "quietpass" THEN "quietdone" ELSE stopping
   /\ IF rq = <<>>
      THEN /\ spc' = "idle"
           /\ UNCHANGED <<wst, rq, cur, cancelCo, ctr, tst, tres, waits, pending, notified, runningTasks>>
@@ -171,7 +192,7 @@ PickWorker ==
                /\ UNCHANGED <<spc, cur>>
           ELSE /\ rq' = Tail(rq) /\ wst' = [wst EXCEPT ![w] = "current"] /\ cur' = w /\ spc' = "in"
                /\ UNCHANGED <<cancelCo, ctr, tst, tres, waits, pending, notified, runningTasks>>
-  /\ UNCHANGED <<pstate, tq, tw, nsusp, cancelTasks, wtask, stopping, wpc, accepted, viol>>
+  /\ UNCHANGED <<pstate, tq, tw, nsusp, cancelTasks, wtask, wpc, accepted, viol>>
 
 \* the worker loop looks for a task
 WorkerPop ==
@@ -184,17 +205,20 @@ WorkerPop ==
                /\ IF Dev("cancel_skip_unsettled") THEN UNCHANGED <<tres, waits, pending, notified>>
                   ELSE /\ tres' = [tres EXCEPT ![t] = "stop_err"] /\ waits' = waits \ {t}
                        /\ pending' = [pending EXCEPT ![t] = FALSE] /\ notified' = [notified EXCEPT ![t] = TRUE]
-               /\ UNCHANGED <<tw, runningTasks, wtask, wst, ctr, cur, spc, rq>>
+               /\ UNCHANGED <<tw, runningTasks, wtask, wst, ctr, cur, spc, rq, stopping>>
           ELSE /\ tq' = Tail(tq) /\ tst' = [tst EXCEPT ![t] = "running"] /\ tw' = [tw EXCEPT ![t] = cur]
                /\ wtask' = [wtask EXCEPT ![cur] = t] /\ runningTasks' = runningTasks \cup {t}
-               /\ UNCHANGED <<cancelTasks, tres, waits, pending, notified, wst, ctr, cur, spc, rq>>
-     ELSE \* no task: a worker above the minimum (or of a stopping pool) ends, otherwise it yields
-          IF ctr > Min \/ pstate # "Running"
+               /\ UNCHANGED <<cancelTasks, tres, waits, pending, notified, wst, ctr, cur, spc, rq, stopping>>
+     ELSE \* no task: a worker whose keep-alive time has passed and that is above the minimum, or any worker of a
+          \* stopping pool, ends; otherwise it yields
+          \E expired \in Expiry :
+          IF IdleExit(expired)
           THEN /\ wst' = [wst EXCEPT ![cur] = "done"] /\ ctr' = ctr - 1 /\ cur' = 0 /\ spc' = "loop"
-               /\ UNCHANGED <<tq, cancelTasks, tst, tw, wtask, runningTasks, tres, waits, pending, notified, rq>>
+               /\ UNCHANGED <<tq, cancelTasks, tst, tw, wtask, runningTasks, tres, waits, pending, notified, rq, stopping>>
           ELSE /\ wst' = [wst EXCEPT ![cur] = "ready"] /\ rq' = Append(rq, cur) /\ cur' = 0 /\ spc' = "idle"
+               /\ stopping' = IF stopping = "quietpass" THEN "quietdone" ELSE stopping
                /\ UNCHANGED <<tq, cancelTasks, tst, tw, wtask, runningTasks, tres, waits, pending, notified, ctr>>
-  /\ UNCHANGED <<pstate, nsusp, cancelCo, stopping, wpc, accepted, viol>>
+  /\ UNCHANGED <<pstate, nsusp, cancelCo, wpc, accepted, viol>>
 
 \* the task body suspends: the worker coroutine yields, the creator listener may grow the pool
 TaskSuspend ==
@@ -283,7 +307,7 @@ W3wake(t) == /\ Go /\ wpc[t] = "W3" /\ ~pending[t] /\ NoLog
 \* far away); a timeout while the result has been stored and announced is the lost wake-up
 W3timeout(t) ==
   /\ Go /\ wpc[t] = "W3" /\ pending[t] /\ NoLog
-  /\ spc = "idle" /\ stopping \notin {"begin", "passes"}
+  /\ spc = "idle" /\ stopping \notin StopActive
   /\ viol' = IF tres[t] \in {"stored", "stop_err"} /\ notified[t] THEN "lost_wakeup"
              ELSE IF tst[t] \in {"skipped", "orphaned"} \/ (pstate = "Stopped" /\ tst[t] \in {"queued", "running"})
                   THEN "waiter_unsettled" ELSE viol
@@ -309,7 +333,9 @@ CounterBounded == ctr <= Max
 \* C11: once all work is done or cancelled and no pass is in progress, a pool above its minimum has
 \* no workers left after a pass that ran out of work
 Settled == spc = "idle" /\ rq = <<>> /\ tq = <<>> /\ \A w \in W : wst[w] # "parked"
-DrainsToMin == (Settled /\ \A t \in T : tst[t] \notin {"queued", "running"}) => ctr <= Min
+\* (with a positive keep-alive time idle workers may linger until it has passed: then the clause is StopPrompt below)
+DrainsToMin == (~KeepAlive /\ Settled /\ \A t \in T : tst[t] \notin {"queued", "running"}) => ctr <= Min
+\* C11: stopping a pool whose tasks have all finished or been cancelled returns promptly - viol = "stop_slow" in StopEnd
 \* C12: the lifecycle only moves forward
 Monotone == [][ (pstate = "Stopping" => pstate' # "Running") /\ (pstate = "Stopped" => pstate' = "Stopped") ]_vars
 \* C12: nothing is accepted once stopping has begun
